@@ -26,7 +26,7 @@ META = {
     'C10': dict(
         text="Kernel-checked theorems (lean/XV/Props/C10.lean) about an executable model of XMCache whose Select is the iterator stack of the code (peek look-aheads, front-priority merge, strip layers, read-set recording on every backend pull), for every program of Get/Put/Del/Select(bounds, early stop) from the empty sandbox over every consistent reader: wset_final (write set = latest write per key), read_your_writes, rset_sound (read-set entries are the reader's entries with their versions; a Get that falls through is recorded), wset_subset_rset (+ _partial/_counterexample: over MemXModel a missing key is not recorded), select_exact (n calls of Next yield the first n entries of the sorted list of exactly the live keys of the range), select_early_stop_rset (every backend entry up to the last consumed key is in the read set or shadowed by an own write; whole range if the scan ended), replay_deterministic (the same program over XMReaderFromRWSet gives the same results and write set). The full statements are refuted for the pre-repair strip configuration (select_exact_orig_counterexample, replay_deterministic_orig_counterexample). Tie: every op line is run on the real XMCache (over MemXModel and over an XModel-like reader) and on the model; results, read-set size after every scan, final RW sets and the verdict of the re-run are diffed; impl-side oracle = shadow map (read-your-writes, exact scans, read/write-set obligations) + re-run over XMReaderFromRWSet.",
         design_ref='DESIGN.md §6 C10',
-        note="Three genuine defects were repaired in the repository (fix: commits b7558b1, 6922197, dc846ab) and the model follows the repaired code. Trusted: Lean kernel, the harness and its XModel-like reader. Not covered: the real XModel iterator (XModel.Select with a nil end key builds the limit bucket/ and iterates nothing - to be decided by the chain engine), Transfer/UTXO sandbox and Flush, interleaving other sandbox calls with a half-consumed iterator, nil/empty keys.",
+        note="Three genuine defects were repaired in the repository (fix: commits c0493d7, d0c6142, 0f2e81e) and the model follows the repaired code. Trusted: Lean kernel, the harness and its XModel-like reader. Not covered: the real XModel iterator (XModel.Select with a nil end key builds the limit bucket/ and iterates nothing - to be decided by the chain engine), Transfer/UTXO sandbox and Flush, interleaving other sandbox calls with a half-consumed iterator, nil/empty keys.",
         technique='Lean 4 proof over a hand model of the iterator stack; exhaustive small-universe + random differential correspondence with the real XMCache; impl-side oracle from a shadow map and a re-run over the read set',
     ),
 }
